@@ -1,4 +1,6 @@
 import QProofs.C19
+import Mathlib.Logic.Equiv.Fin.Basic
+import Mathlib.Algebra.BigOperators.Fin
 /-!
 # C19 — property theorems: the analytical error formulas are exact expectations
 
@@ -374,6 +376,66 @@ theorem crb_formula {nv : Nat} (Finv : Mat K nv nv) (N : K) : crb Finv N = Finv.
   simp [crb]
 
 end score
+
+section layout
+
+/-- C19 (`_generate_matS` is the hstack of identities): `S v` is the sum of the `num_outcomes − 1` blocks of
+`v` — component `a` of `S v` is `Σ_k v[k·d² + a]`. So for a POVM whose last element is implied,
+`E_last = c − Σ_k E_k`, the second term of the object-mode MSE, `tr(S Cov_v Sᵀ) = E‖S(v̂ − v)‖²`, is exactly the
+squared error of the implied element (`povm_last_element_error`), with no hypothesis on `S`. -/
+theorem matS_mulVec {K : Type} [Field K] (d2 mo : Nat) (v : Vec K ((mo - 1) * d2)) (a : Fin d2) :
+    ((matS (K := K) d2 mo).mulVec v).get a
+      = ∑ k : Fin (mo - 1), v.get (finProdFinEquiv (k, a)) := by
+  rw [mulVec_get]
+  rw [← (finProdFinEquiv (m := mo - 1) (n := d2)).sum_comp, Fintype.sum_prod_type]
+  refine Finset.sum_congr rfl fun k _ => ?_
+  have : ∀ b : Fin d2, (matS (K := K) d2 mo).get a (finProdFinEquiv (k, b)) * v.get (finProdFinEquiv (k, b))
+      = if b = a then v.get (finProdFinEquiv (k, b)) else 0 := by
+    intro b
+    simp only [matS, Mat.get_ofFn, finProdFinEquiv_apply_val]
+    have hb : (b.val + d2 * k.val) % d2 = b.val := by
+      rw [Nat.add_mul_mod_self_left]; exact Nat.mod_eq_of_lt b.isLt
+    rw [hb]
+    by_cases h : b = a
+    · subst h; simp
+    · have : b.val ≠ a.val := fun hh => h (Fin.ext hh)
+      simp [h, this]
+  simp only [this, Finset.sum_ite_eq', Finset.mem_univ, if_true]
+
+/-- the element a POVM with `on_para_eq_constraint=True` does not store: `c − Σ_k E_k` (`c` = coefficient vector of
+the identity) -/
+def lastElem {K : Type} [Field K] (d2 mo : Nat) (c : Vec K d2) (v : Vec K ((mo - 1) * d2)) : Vec K d2 :=
+  Vec.ofFn fun a => c.get a - ∑ k : Fin (mo - 1), v.get (finProdFinEquiv (k, a))
+
+/-- C19 (POVM, implied last element): the error of the implied element is `−S(v̂ − v)`. -/
+theorem povm_last_element_error {K : Type} [Field K] (d2 mo : Nat) (c : Vec K d2)
+    (v v' : Vec K ((mo - 1) * d2)) (a : Fin d2) :
+    (lastElem d2 mo c v).get a - (lastElem d2 mo c v').get a
+      = -((matS (K := K) d2 mo).mulVec (v.sub v')).get a := by
+  rw [matS_mulVec]
+  simp only [lastElem, Vec.get_ofFn, vsub_get, Finset.sum_sub_distrib]
+  ring
+
+/-- C19 (`StandardQTomography.calc_fisher_matrix`, row slices): when `matA` / `vecB` are the stack of one block per
+schedule with a common outcome count `m` (what `calc_prob_dists` supports), the call for schedule `j` is
+`matrix_util.calc_fisher_matrix` on exactly the `j`-th block: probabilities `A_j · var + b_j`, gradients the rows
+of `A_j` — `int(len(matA)/num_schedules) = m` and the slices `[m·j : m·(j+1)]` pick block `j`. -/
+theorem fisherQt_block {K : Type} [Add K] [Sub K] [Mul K] [Div K] [Neg K] [Zero K] [One K] [NatCast K]
+    [LT K] [DecidableLT K] [LE K] [DecidableLE K]
+    (blocks : List (List (List K))) (bvecs : List (List K)) (m : Nat)
+    (hb : ∀ b ∈ blocks, b.length = m) (hv : ∀ b ∈ bvecs, b.length = m)
+    (hlen : bvecs.length = blocks.length) (j : Nat) (hj : j < blocks.length) (var : List K) (eps : K) :
+    fisherQt blocks.flatten bvecs.flatten blocks.length j var eps
+      = fisher ((blocks[j].zip (bvecs[j]'(hlen ▸ hj))).map fun (r, b) =>
+          lsum ((r.zip var).map fun (a, v) => a * v) + b) blocks[j] eps := by
+  unfold fisherQt
+  have hsize : blocks.flatten.length / blocks.length = m := by
+    rw [length_flatten_uniform blocks m hb]
+    exact Nat.mul_div_cancel m (by omega)
+  simp only [hsize]
+  rw [slice_flatten_uniform blocks m hb j hj, slice_flatten_uniform bvecs m hv j (hlen ▸ hj)]
+
+end layout
 
 /-! ## validation of the helpers (repaired code) -/
 
